@@ -172,6 +172,8 @@ Theorem C02_old_count_young : forall o now age,
 Proof. exact older_than_young. Qed.
 
 (* ---- the end-to-end acceptor (Model/StreamsTrace.v, part 5) ----
+   (C02_trace_sound = NO FALSE ALARM: every model history is accepted; what acceptance MEANS is
+   C02_trace_no_share / C02_trace_delivery below)
    [obs_run conn_init ls] is what an outside observer sees of the run ls: requests submitted,
    frames received and sent by the peer, what the callers got.  [c02_trace_ok] is the property
    as a checker over such a history.  Every run of the model, of any length and for any
@@ -186,6 +188,31 @@ Proof. exact trace_sound. Qed.
 Theorem C02_trace_prefix : forall ls s, run conn_init ls = Some s ->
   exists a, acc_run acc_init (obs_run conn_init ls) = Some a.
 Proof. exact trace_sound_prefix. Qed.
+
+(* What an ACCEPTED history satisfies (soundness of the acceptor w.r.t. the property text), stated
+   on positions of the event list, for every event list whatsoever:
+   sentence 2 -- between two request frames carried by the same stream id the peer has answered the
+   first one (whether or not its caller abandoned it: the acceptor does not know); *)
+Theorem C02_trace_no_share : forall evs i j sid m1 m2, c02_trace_ok evs = true -> (i < j)%nat ->
+  nth_error evs i = Some (EIn sid m1) -> nth_error evs j = Some (EIn sid m2) ->
+  exists k, (i < k < j)%nat /\ nth_error evs k = Some (EOut sid m1).
+Proof. exact trace_ok_no_share. Qed.
+
+(* sentence 1 -- a caller that completed with rows holds the rows built for its own marker, and the
+   peer had sent exactly that answer before, on the stream id on which it had received that very
+   request *)
+Theorem C02_trace_delivery : forall evs k m m', c02_trace_ok evs = true ->
+  nth_error evs k = Some (EDone m (ORows m')) ->
+  m' = m /\ exists i j sid, (i < j < k)%nat /\ nth_error evs i = Some (EIn sid m) /\
+                            nth_error evs j = Some (EOut sid m).
+Proof. exact trace_ok_delivery. Qed.
+
+(* ---- the stream-id sentence on the map alone, for EVERY operation sequence: request ids and
+   tokens may repeat (there [sm_check] is not applicable).  No id is handed out while outstanding,
+   a refusal only with all 32768 outstanding, the assert never fires. *)
+Theorem C02_ids_spec : forall ops, Forall op_in_range ops ->
+  ids_check ops (snd (hm_run hm_new ops)) = true.
+Proof. exact ids_spec. Qed.
 
 (* ---- the frame reader on the byte stream (part 6; [parse_frame] = C10's model of
    read_response_frame) ---- exactly 9 + `length` bytes per frame, for any length *)
@@ -279,6 +306,30 @@ Example C02_ex_reader :
       ConnFail.mk_frame [132; 0; 0; 9; 8; 0; 0; 0; 0] []], RdNeedMore 2).
 Proof. vm_compute. reflexivity. Qed.
 
+(* the id checker: rejects a double hand-out (also with a repeated request id), a refusal with
+   free ids, an id >= 32768; accepts reuse after the lookup *)
+Example C02_ex_ids_rejects :
+  ids_check [OpAlloc 1 10; OpAlloc 1 11] [RAlloc (AllocOk 0) 10; RAlloc (AllocOk 0) 11] = false /\
+  ids_check [OpAlloc 1 10] [RAlloc AllocFull 10] = false /\
+  ids_check [OpAlloc 1 10] [RAlloc (AllocOk 32768) 10] = false /\
+  ids_check [OpAlloc 1 10] [RAlloc AllocPanic 10] = false /\
+  ids_check [OpAlloc 1 10; OpOrphan 1; OpAlloc 2 11] [RAlloc (AllocOk 0) 10; RUnit; RAlloc (AllocOk 0) 11] = false /\
+  ids_check [OpAlloc 1 10; OpLookup 0; OpAlloc 1 11]
+            [RAlloc (AllocOk 0) 10; RLookup (LHandler 1 10); RAlloc (AllocOk 0) 11] = true.
+Proof. repeat split; vm_compute; reflexivity. Qed.
+
+(* more rejections of the trace acceptor: id reused after its caller was answered nothing (the
+   earlier request abandoned: no EDone at all), answer on another stream than the request came
+   with, rows for a request never written, two outcomes, frame on an id >= 32768 *)
+Example C02_ex_trace_rejects2 :
+  c02_trace_ok [ESub 1; EIn 5 1; ESub 2; ESub 3; EIn 6 2; EIn 5 3] = false /\
+  c02_trace_ok [ESub 1; EIn 5 1; EOut 6 1] = false /\
+  c02_trace_ok [ESub 1; ESub 2; EIn 0 1; EOut 0 1; EDone 2 (ORows 2)] = false /\
+  c02_trace_ok [ESub 1; EIn 0 1; EOut 0 1; EDone 1 (ORows 1); EDone 1 (ORows 1)] = false /\
+  c02_trace_ok [ESub 1; EIn 32768 1] = false /\
+  c02_trace_ok [ESub 1; EIn 5 1; EOut 5 1; ESub 2; EIn 5 2; EOut 5 2; EDone 2 (ORows 2)] = true.
+Proof. repeat split; vm_compute; reflexivity. Qed.
+
 Print Assumptions C02_bitmap_alloc.
 Print Assumptions C02_bitmap_full.
 Print Assumptions C02_bitmap_free.
@@ -306,3 +357,6 @@ Print Assumptions C02_trace_sound.
 Print Assumptions C02_trace_prefix.
 Print Assumptions C02_reader_exact.
 Print Assumptions C02_reader_frames.
+Print Assumptions C02_trace_no_share.
+Print Assumptions C02_trace_delivery.
+Print Assumptions C02_ids_spec.
